@@ -14,7 +14,10 @@ func init() { props["C11"] = checkC11 }
 func checkC11(c *Ctx) {
 	c.Decides("GO-WG: every worker goroutine whose launcher does wg.Add signals wg.Done on every exit path (CFG must-pass-through); GO-CLOSE: every result channel that is ranged over or returned is closed by a goroutine on all of its paths, after wg.Wait when workers send on it; GO-NILCHAN: no receive/range on a local channel variable that is still nil on some path; GO-WRITE: inside a goroutine that has several live instances, every store goes to an object the instance owns (declared in it / received from a channel), to a slot indexed by such an object's id, under a mutex, or through sync/atomic — directly or through repository callees (bottom-up write summaries)")
 	c.Decides("ERRFLOW: the per-tree error (Trees.Err, ReinitIndexes, CompareTipIndexes) reaches the record sent / the error returned on every path where it is non-nil")
+	c.Decides("ERR-SWALLOW: in the same files, a branch entered because an error value is non-nil does not leave the function with a nil error (no `return nil`, no bare return with an unset named result)")
 	c.DoesNotDecide("equality of results across thread counts beyond absence of shared unsynchronised stores (assumes edge ids unique and trees received from the channel not shared); scheduler fairness; races through external packages")
+	c.Decides("ERR-DEAD: in the threaded computations, their readers and the compare/support commands, the error a call stores in a variable is read before that variable is assigned again on every path")
+	c.errDeadIn("the error reaches the caller instead of a hang or a crash", 40, "tree/algo.go", "support/", "io/utils/readtrees.go", "cmd/comparetrees.go", "cmd/computesupport.go", "cmd/classical.go", "cmd/booster.go")
 	c.Assume = append(c.Assume, "objects received from a channel are owned by the receiving goroutine", "edge ids used as slice indexes are unique per branch")
 	clauseTerm := "they always terminate: when an input tree is malformed or carries an error, the error reaches the caller instead of a hang or a crash"
 	clauseRace := "for every thread count and every interleaving ... without data races"
@@ -107,6 +110,17 @@ func checkC11(c *Ctx) {
 			}
 		}
 		c.Control("GO-NILCHAN", hit, "fixture.C11NilChan ranges over a channel variable that one branch never assigns")
+	}
+	if fx := c.Fixture(); fx != nil {
+		sub := c.subCtx(fx)
+		var fs []*FuncInfo
+		for _, fi := range sub.AllFuncs() {
+			if fi.Obj.Name() == "C11Swallow" {
+				fs = append(fs, fi)
+			}
+		}
+		_, nv := sub.errSwallow("ERR-SWALLOW", fs, "")
+		c.Control("ERR-SWALLOW", nv == 1, "fixture.C11Swallow leaves with its unset named result inside `if r.Err != nil`")
 	}
 	// ERRFLOW inside the workers
 	c.workerErrFlow("tree", "Compare", nil, clauseTerm)
